@@ -13,7 +13,7 @@
    than categorical / numerical / embedding and the key order of feat_dict do not
    matter, float32 round-off of the metric values.  Out of scope: the boosters,
    ROC-AUC, R2. *)
-From Coq Require Import List ZArith QArith Qabs Bool Arith.
+From Coq Require Import List ZArith QArith Qabs Bool Arith Permutation.
 From PF Require Import Gen.Tables Model.Gbdt Proofs.GbdtProofs.
 Import ListNotations.
 Close Scope Q_scope.
@@ -124,6 +124,22 @@ Proof.
               (conj (dataframe_empty_rejected tf A B C) (dataframe_empty_rejected tf A B C))).
 Qed.
 Print Assumptions empty_frame_rejected.
+
+(* 6b. the frame as the DICTIONARY the code holds (feat_dict, in insertion order, with
+       entries of any stype): the adapters depend only on the categorical / numerical /
+       embedding entries -- neither on the order of the keys nor on what other stypes
+       (timestamp, multicategorical, sequence_numerical, text_tokenized, ...) are present *)
+Definition relevant_entry (e : stype * payload) : bool :=
+  stype_eqb (fst e) st_categorical || stype_eqb (fst e) st_numerical || stype_eqb (fst e) st_embedding.
+
+Theorem adapters_ignore_key_order_and_other_stypes : forall d d' y,
+  NoDup (map fst d) -> NoDup (map fst d') ->
+  Permutation (filter relevant_entry d) (filter relevant_entry d') ->
+  on_dict to_xgboost_input d y = on_dict to_xgboost_input d' y /\
+  on_dict to_catboost_input d y = on_dict to_catboost_input d' y /\
+  on_dict to_lightgbm_input d y = on_dict to_lightgbm_input d' y.
+Proof. intros d d' y A B C. repeat split; apply adapters_relevant_only; assumption. Qed.
+Print Assumptions adapters_ignore_key_order_and_other_stypes.
 
 (* ---------------------------------------------------------------- metric selection (FINITE) *)
 (* 7. the model of GBDT.__init__ agrees with what the constructor did on this run,
@@ -282,3 +298,21 @@ Example multilabel_rejected :
   gbdt_init task_MULTILABEL_CLASSIFICATION None = None /\
   forall m, gbdt_init task_MULTILABEL_CLASSIFICATION (Some m) = None.
 Proof. split; [reflexivity | intros m; destruct m; reflexivity]. Qed.
+
+(* 6b is not vacuous: two dictionaries with different key order and different ignored
+   stypes, same relevant entries, same (non-trivial) conversion *)
+Definition c_ex : feat Z := {| f_names := 1; f_width := 1; f_rows := [[5]; [-1]]%Z |}.
+Definition n_ex : feat val := {| f_names := 1; f_width := 1; f_rows := [[q 3 2]; [None]] |}.
+Definition dict1 : feat_dict := [(st_timestamp, POther); (st_numerical, PNum n_ex); (st_categorical, PCat c_ex)].
+Definition dict2 : feat_dict := [(st_categorical, PCat c_ex); (st_multicategorical, POther); (st_numerical, PNum n_ex);
+                                 (st_text_tokenized, POther)].
+Example dict_example :
+  NoDup (map fst dict1) /\ NoDup (map fst dict2) /\
+  Permutation (filter relevant_entry dict1) (filter relevant_entry dict2) /\
+  on_dict to_xgboost_input dict1 None = Some ([[q 5 1; q 3 2]; [None; None]], None, [FC; FQ]) /\
+  on_dict to_xgboost_input dict2 None = Some ([[q 5 1; q 3 2]; [None; None]], None, [FC; FQ]).
+Proof.
+  split; [repeat constructor; simpl; intuition discriminate|].
+  split; [repeat constructor; simpl; intuition discriminate|].
+  split; [apply perm_swap|]. split; vm_compute; reflexivity.
+Qed.
